@@ -51,12 +51,100 @@ PROPS['C09'] = {
     ],
 }
 
+PROPS['C06'] = {
+    'module': 'SuironVerif.Props.C06',
+    'theorems': ['Suiron.C06.unify_extends', 'Suiron.C06.unify_result_wf'],
+    'oracles': ['C06'],
+    'suites': {
+        'quick': unify_runs('C06', 4000, [[], ['--anon']], exhaustive=[([], 1)]),
+        'thorough': unify_runs('C06', 100000, [[]] * 8 + [['--anon']] * 2 + [['--oddfloats']], exhaustive=[([], 2), (['--anon'], 2)]),
+    },
+    'exhaustive_in': {'quick': True, 'thorough': True},
+    'rule': U_RULE,
+    'design_ref': '5.6',
+    'assumptions': [
+        "oracle on the implementation (anon-free, function-free cases): success agrees with Robinson unification with occurs check under the prior "
+        "substitution (occurs-check situations dropped); every earlier binding is kept verbatim; both operands resolve to the same term; the resolved "
+        "values of all variables are a variant of the reference mgu under one variable bijection",
+        "NaN operands are compared with the model only (NaN equals nothing, itself included; the property does not speak about it)",
+    ],
+}
+
+PROPS['C07'] = {
+    'module': 'SuironVerif.Props.C07',
+    'theorems': ['Suiron.C07.const_const_symm_partial', 'Suiron.C07.nonvar_var_forward_partial', 'Suiron.C07.empty_vs_nonempty_partial'],
+    'oracles': ['C07'],
+    'suites': {
+        'quick': unify_runs('C07', 4000, [[], ['--anon']], exhaustive=[(['--anon'], 1)]),
+        'thorough': unify_runs('C07', 100000, [[]] * 6 + [['--anon']] * 4, exhaustive=[([], 2), (['--anon'], 2)]),
+    },
+    'exhaustive_in': {'quick': True, 'thorough': True},
+    'rule': U_RULE + " Every subject pair is unified in both orders by the oracle.",
+    'design_ref': '5.7',
+    'assumptions': [
+        "PARTIAL: the proved theorems cover the symmetric dispatch (constants, term-vs-variable forwarding, empty list vs list pattern); the full "
+        "statement (success iff, results variants) is stated in Props/C07.lean and not yet proved for the list/complex recursion",
+        "oracle on the implementation: A=B and B=A succeed/fail/panic alike under the same prior substitution and resolve every variable to variants",
+    ],
+}
+
+PROPS['C08'] = {
+    'module': 'SuironVerif.Props.C08',
+    'theorems': ['Suiron.C08.unify_chainWF', 'Suiron.C08.unify_seq_chainWF', 'Suiron.C08.walk_terminates', 'Suiron.C08.alias_adds_no_binding'],
+    'oracles': ['C08'],
+    'suites': {
+        'quick': unify_runs('C08', 4000, [[], ['--anon'], ['--func']], exhaustive=[(['--anon'], 1)]),
+        'thorough': unify_runs('C08', 100000, [[]] * 6 + [['--anon']] * 3 + [['--func']], exhaustive=[([], 2), (['--anon'], 2)]),
+    },
+    'exhaustive_in': {'quick': True, 'thorough': True},
+    'rule': U_RULE + " Half of the non-final steps have a variable as one operand, so chains of aliased variables are frequent.",
+    'design_ref': '5.8',
+    'assumptions': [
+        "unify_chainWF is unconditional (all operands, all substitution sets): variable-to-anything chains stay finite, so get_ground_term always returns; "
+        "termination of full resolution (replace_variables) additionally needs the absence of occurs-check situations, which the property excludes",
+        "oracle on the implementation: after every successful step, following variable bindings from every index ends within len+1 steps; unifying two "
+        "variables whose chains end at the same unbound variable succeeds in both orders and leaves the set unchanged",
+    ],
+}
+
+PROPS['C13'] = {
+    'module': 'SuironVerif.Props.C13',
+    'theorems': ['Suiron.C13.func_left', 'Suiron.C13.func_right', 'Suiron.C13.either_side', 'Suiron.C13.func_func'],
+    'oracles': ['C13'],
+    'suites': {
+        'quick': unify_runs('C13', 5000, [['--func'], ['--func', '--anon']], exhaustive=[(['--func'], 1)]),
+        'thorough': unify_runs('C13', 100000, [['--func']] * 6 + [['--func', '--anon']] * 2, exhaustive=[(['--func'], 2), (['--func', '--anon'], 2)]),
+    },
+    'exhaustive_in': {'quick': True, 'thorough': True},
+    'rule': U_RULE + " Runs here add built-in function terms (add/subtract/multiply/divide over 1-3 numbers, join over words and punctuation) as operands "
+            "and as arguments / list elements.",
+    'design_ref': '5.13',
+    'assumptions': [
+        "oracle on the implementation: for a subject pair with a function term as a whole operand, unifying it gives the same success/failure and the same "
+        "resolved variable values (up to renaming) as unifying its value, computed by the harness' own fold, in the same position",
+        "function terms nested inside arguments of other function terms are outside the property (the implementation panics on them)",
+    ],
+}
+
 NOT_APPLICABLE = {
     'C24': 'Undefined behaviour (aliasing of raw-pointer writes, data races on static mut) is a property of pointers, borrows and threads, '
            'which a pure functional Lean model erases by construction; no executable Lean model can express it (DESIGN.md 5.24).',
 }
 
 LEVEL_TEXT = {
+    'C06': 'Proved in Lean for all well-formed operands, substitution sets and fuel: a successful unification keeps every earlier binding verbatim and only '
+           'adds bindings of previously unbound variables (to terms that are neither `$_` nor function calls). Agreement with a reference mgu (soundness, '
+           'generality, no false failure) is decided on the implementation by the oracle over random and exhaustive universes and by the correspondence '
+           'with the model; the corresponding theorems are work in progress and are not claimed.',
+    'C07': 'PARTIAL proof: symmetric dispatch lemmas (constants; term facing a variable; empty list facing a list pattern) are proved for all inputs; the '
+           'full symmetry statement is decided on the implementation by running every generated pair in both orders (random + all ordered pairs of a '
+           '60-term universe under 10 priors) and by the model correspondence.',
+    'C08': 'Proved in Lean, unconditionally (any operands, any set, any fuel, any sequence): if following bindings ends from every term before a successful '
+           'unification it still does afterwards; unifying an unbound variable with a variable aliased to it returns the set unchanged. Ties to the code '
+           'through the unify correspondence suite; the oracle walks the real substitution sets.',
+    'C13': 'Proved in Lean for all operands: a function term on the right of a variable, constant, complex term or list is forwarded to the function side, '
+           'and a function term on the left is evaluated and its value unified with the other operand, so both orders reduce to unify(value, other). '
+           'Tied to src/unifiable.rs and built_in_functions.rs by the correspondence suite with function terms.',
     'C09': 'Proved in Lean for all terms, substitution sets and fuel: `$_ = t` and `t = $_` return the substitution set unchanged; a `$_` in an '
            'argument, list-element or list-tail position is skipped; no successful unification ever binds a variable to `$_`; a variable '
            'unified with `$_` behaves afterwards as if it had not been. The theorems are about the model; the correspondence suite (random + '
